@@ -396,6 +396,7 @@ func TestVerifC11Loop(t *testing.T) {
 		}
 		sawFail, sawFreesNothingOwn, sawPendingCounted, sawCrossTaskCredit, sawPendingLaterCovers := false, false, false, false, false
 		var viol []func() bool
+		sawFreesNothingAny := false
 		for _, e := range ex.events {
 			if e.Kind == "asked" {
 				if e.OK && !isVictim[e.Pod] {
@@ -437,7 +438,7 @@ func TestVerifC11Loop(t *testing.T) {
 					k, p, c11Fmt(tk.Release, tk.NilRL), victims, describe())
 				return
 			}
-			{ // stricter reading, only counted: pods of this list that are already evicted but come later would cover the target
+			{ // pods of this list that are already evicted (still terminating) but come later in the order would cover the target
 				cover := len(pr) > 0
 				for _, r := range pr {
 					have := sum(lo, k, r)
@@ -450,8 +451,19 @@ func TestVerifC11Loop(t *testing.T) {
 						cover = false
 					}
 				}
-				if cover {
+				if cover && !sawPendingLaterCovers {
 					sawPendingLaterCovers = true
+					kk, pp, vv := k, p, append([]int(nil), victims...)
+					var pend []int
+					for _, a := range tk.List {
+						if ex.already[a] && !isVictim[a] {
+							pend = append(pend, a)
+						}
+					}
+					viol = append(viol, func() bool {
+						return c.Violation(t, "evict:pending-release-later-in-list-not-credited", "task%d evicted p%d although the victims so far %v together with the pods of its list that are already evicted and still present %v cover its target %s%s",
+							kk, pp, vv, pend, c11Fmt(tasks[kk].Release, tasks[kk].NilRL), describe())
+					})
 				}
 			}
 			// order inside the task
@@ -490,6 +502,7 @@ func TestVerifC11Loop(t *testing.T) {
 					}
 				}
 				if !any {
+					sawFreesNothingAny = true
 					kk, pp, ok, vv := k, p, e.OK, append([]int(nil), victims...)
 					viol = append(viol, func() bool {
 						return c.Violation(t, "evict:victim-frees-nothing", "task%d evicted p%d (call result %v) although p%d frees nothing of what is still short: target %s, victims so far %v%s",
@@ -605,9 +618,9 @@ func TestVerifC11Loop(t *testing.T) {
 		c.ClassIf(sawFail, "eviction-call-failed")
 		c.ClassIf(zeroCandidate, "candidate-with-zero-contribution")
 		c.ClassIf(sawFreesNothingOwn, "evicted-pod-frees-nothing-for-own-task")
-		c.ClassIf(sawFreesNothingOwn && len(viol) == 0, "evicted-pod-frees-nothing-for-own-task-but-helps-another(not asserted)")
+		c.ClassIf(sawFreesNothingOwn && !sawFreesNothingAny, "evicted-pod-frees-nothing-for-own-task-but-helps-another(not asserted)")
 		c.ClassIf(sawPendingCounted, "already-evicted-pod-counted")
-		c.ClassIf(sawPendingLaterCovers, "evicted-although-already-evicted-pods-later-in-the-list-cover-the-target(not asserted)")
+		c.ClassIf(sawPendingLaterCovers, "evicted-although-already-evicted-pods-later-in-the-list-cover-the-target")
 		c.ClassIf(sawCrossTaskCredit, "eviction-credited-to-other-task")
 		c.ClassIf(infoDiffers, "info-differs-between-lists")
 		c.ClassIf(nEvict == 0, "no-eviction")
